@@ -1156,6 +1156,178 @@ Proof.
 Qed.
 
 (* ====================================================================== *)
+(* K. corrections after the proof audit: index ranges, scan => valid, aligned (both directions), mapM totality *)
+(* ====================================================================== *)
+(* a successful build measured only qubits of the circuit: `nth .. locs 0` in the suffix never meets its default *)
+Lemma build1_indices gh gsx env qc ids ms g e :
+  build1 gh gsx env qc ids ms g = Ok e ->
+  forall s, In s (pauli_indices_or_dummy (og_indices g)) -> s < mnq qc.
+Proof.
+  unfold build1. intros H.
+  apply res_bind_ok in H as (q1 & Hq1 & H). apply res_bind_ok in H as (dk & Hd & H).
+  unfold append_measurement_register in Hq1.
+  destruct (existsb fst (mcregs qc)); [discriminate|]. inversion Hq1; subst q1; clear Hq1.
+  set (Q3 := match og_indices g with [] => _ | _ :: _ => _ end) in H.
+  assert (Hq : mnq Q3 = mnq qc) by (unfold Q3; destruct (og_indices g); reflexivity).
+  unfold append_measurement_circuit in H. rewrite Hq in H.
+  destruct (Nat.eqb (mnq qc) (length (og_general g))) eqn:En; cbn [negb] in H; [|discriminate].
+  apply Nat.eqb_eq in En.
+  destruct (find_obs_creg (mcregs Q3)); [|discriminate].
+  destruct (negb (Nat.eqb _ _)); [discriminate|].
+  destruct (forallb _ (pauli_indices_or_dummy (og_indices g))) eqn:Ef; cbn [negb] in H; [|discriminate].
+  intros s Hs. rewrite forallb_forall in Ef. specialize (Ef s Hs). apply Nat.ltb_lt in Ef.
+  destruct (Nat.lt_ge_cases s (mnq qc)) as [Hlt|Hge]; [exact Hlt|].
+  rewrite nth_overflow in Ef by (rewrite seq_length; lia). lia.
+Qed.
+
+Lemma mapM_total {A B} (f : A -> res B) l :
+  (forall x, In x l -> exists y, f x = Ok y) -> exists ys, mapM f l = Ok ys.
+Proof.
+  induction l as [|x l IH]; intros H; [exists []; reflexivity|].
+  destruct (H x (or_introl eq_refl)) as (y & Hy).
+  destruct IH as (ys & Hys); [intros; apply H; now right|].
+  exists (y :: ys). cbn [mapM]. now rewrite Hy, Hys.
+Qed.
+
+(* the label scan never crashes; it succeeds when every one-qubit placeholder has a numeric suffix *)
+Lemma mapping_scan_total : forall c i,
+  (forall x, In x c -> suffix_of x <> Some None) -> exists m, mapping_scan i c = Ok m.
+Proof.
+  induction c as [|x c IH]; intros i H; [eexists; reflexivity|]. cbn [mapping_scan].
+  destruct (IH (S i)) as (m & Hm); [intros; apply H; now right|].
+  destruct (suffix_of x) as [[k|]|] eqn:E.
+  - rewrite Hm. eexists; reflexivity.
+  - exfalso. apply (H x); [now left|exact E].
+  - eauto.
+Qed.
+
+Lemma mapping_by_partition_total d :
+  (forall l qc x, In (l, qc) d -> In x (mdata qc) -> suffix_of x <> Some None) ->
+  exists M, mapping_by_partition d = Ok M.
+Proof.
+  induction d as [|[l qc] d IH]; intros H; [eexists; reflexivity|]. cbn [mapping_by_partition].
+  destruct (mapping_scan_total (mdata qc) 0) as (m & Hm); [intros x Hx; apply (H l qc x); [now left|exact Hx]|].
+  destruct IH as (M & HM); [intros l' qc' x Hin Hx; apply (H l' qc' x); [now right|exact Hx]|].
+  rewrite Hm, HM. eexists; reflexivity.
+Qed.
+
+Lemma table_lookup_conv d M l qc :
+  mapping_by_partition d = Ok M -> alookup d l = Some qc ->
+  exists ids sfx, mapping_scan 0 (mdata qc) = Ok (ids, sfx) /\
+                  alookup (table_of d M) l = Some (mkPI qc ids (Some sfx)).
+Proof.
+  intros HM Hl. destruct (mapping_lookup d M l qc HM Hl) as ([ids sfx] & Hm & Hs).
+  exists ids, sfx. split; [exact Hs|]. unfold table_of. clear HM Hs.
+  induction d as [|[l0 q0] d IH]; [discriminate|]. cbn [map alookup fst snd] in *.
+  destruct (Nat.eqb_spec l l0) as [->|Hne]; [|now apply IH].
+  inversion Hl; subst. now rewrite Hm.
+Qed.
+
+(* THE scan-to-valid lemma: the decomposition request that generation issues for a subcircuit without two-qubit
+   placeholders is a `valid` request of C14 as soon as every projected map id is in range for ITS placeholder's basis *)
+Lemma is_qpd_is_qpd1 x : is_qpd2 x = false -> is_qpd x = is_qpd1 x.
+Proof. unfold is_qpd2, is_qpd, is_qpd1, suffix_of. destruct (iop x) as [| | | | | | |b h bid [[l [k|]]|]|]; try reflexivity; discriminate. Qed.
+
+Lemma mapping_scan_lengths : forall c i ids sfx, mapping_scan i c = Ok (ids, sfx) -> length ids = length sfx.
+Proof.
+  induction c as [|x c IH]; intros i ids sfx H; cbn [mapping_scan] in H; [inversion H; reflexivity|].
+  destruct (suffix_of x) as [[k|]|]; [|discriminate|eauto].
+  apply res_map_ok in H as ([ids' sfx'] & H & Heq). inversion Heq; subst. simpl. f_equal. eauto.
+Qed.
+
+(* every pair (group, map id) of the request: the group is one placeholder, the id is joint[its cut id] *)
+Lemma scan_combine joint : forall c i ids sfx ms g m,
+  mapping_scan i c = Ok (ids, sfx) -> project joint sfx = Ok ms -> In (g, m) (combine ids ms) ->
+  exists q x k, g = [i + q] /\ nth_error c q = Some x /\ suffix_of x = Some (Some k) /\ nth_error joint k = Some m.
+Proof.
+  induction c as [|x0 c IH]; intros i ids sfx ms g m H Hp Hin; cbn [mapping_scan] in H.
+  - inversion H; subst. destruct Hin.
+  - destruct (suffix_of x0) as [[k0|]|] eqn:E0; [|discriminate|].
+    + apply res_map_ok in H as ([ids' sfx'] & H & Heq). inversion Heq; subst; clear Heq. cbn [fst snd] in *.
+      cbn [project] in Hp. destruct (nth_error joint k0) as [m0|] eqn:Em; [|discriminate].
+      apply res_map_ok in Hp as (ms' & Hp & ->). cbn [combine In] in Hin. destruct Hin as [Heq|Hin].
+      * inversion Heq; subst. exists 0, x0, k0. rewrite Nat.add_0_r. auto.
+      * destruct (IH _ _ _ _ _ _ H Hp Hin) as (q & x & k & -> & Hx & Hk & Hm).
+        exists (S q), x, k. rewrite Nat.add_succ_r. auto.
+    + destruct (IH _ _ _ _ _ _ H Hp Hin) as (q & x & k & -> & Hx & Hk & Hm).
+      exists (S q), x, k. rewrite Nat.add_succ_r. auto.
+Qed.
+
+Lemma In_combine_map_inv {A B C} (f : B -> C) (l : list A) (l' : list B) a c :
+  In (a, c) (combine l (map f l')) -> exists b, c = f b /\ In (a, b) (combine l l').
+Proof.
+  revert l'; induction l as [|x l IH]; intros [|y l'] H; simpl in *; try contradiction.
+  destruct H as [H|H]; [inversion H; eauto|]. destruct (IH _ H) as (b & -> & Hb). eauto.
+Qed.
+
+Lemma cut_of_basis x k b : cut_of x = Some (k, b) -> basis_of x = Some b /\ suffix_of x = Some (Some k).
+Proof.
+  unfold cut_of, basis_of, suffix_of. destruct (iop x) as [| | | | | | |b' h bid [[l [k'|]]|]|]; try discriminate.
+  intros H; inversion H; auto.
+Qed.
+
+Lemma scan_valid env c ids sfx joint ms :
+  mapping_scan 0 c = Ok (ids, sfx) -> project joint sfx = Ok ms ->
+  (forall x, In x c -> is_qpd2 x = false) ->
+  (forall x k b, In x c -> cut_of x = Some (k, b) ->
+     exists m, nth_error joint k = Some m /\ m < length (nth b env [])) ->
+  valid env c ids (map Z.of_nat ms).
+Proof.
+  intros Hs Hp H2 Hr. pose proof (mapping_scan_spec c 0 ids sfx Hs) as (Hids & Hsfx & Hnone).
+  assert (Hpos : forall p, In p (positions_from is_qpd1 0 c) <-> exists x, nth_error c p = Some x /\ is_qpd1 x = true).
+  { intros p. rewrite positions_In. split.
+    - intros (x & _ & Hx & Hf). rewrite Nat.sub_0_r in Hx. eauto.
+    - intros (x & Hx & Hf). exists x. rewrite Nat.sub_0_r. repeat split; [lia|exact Hx|exact Hf]. }
+  split; [|split].
+  - apply validate_complete. rewrite Hids. repeat split.
+    + apply Forall_forall. intros g Hg. apply in_map_iff in Hg as (p & <- & Hp'). split; [now left|].
+      apply Hpos in Hp' as (x & Hx & Hf).
+      assert (Hb : exists b, basis_of x = Some b).
+      { unfold is_qpd1, suffix_of, basis_of in *. destruct (iop x); try discriminate; eauto. }
+      destruct Hb as (b & Hb). exists b. intros q [<-|[]]. exists x. auto.
+    + rewrite concat_singletons. unfold positions in *. rewrite positions_length.
+      clear -H2. induction c as [|x c IH]; [reflexivity|]. cbn [filter].
+      rewrite (is_qpd_is_qpd1 x (H2 x (or_introl eq_refl))).
+      assert (IH' := IH (fun y Hy => H2 y (or_intror Hy))). destruct (is_qpd1 x); simpl; now rewrite IH'.
+    + rewrite concat_singletons. apply sorted_lt_NoDup, positions_sorted.
+    + intros g Hg p Hp' _. apply in_map_iff in Hg as (q & <- & _). reflexivity.
+  - rewrite map_length. apply project_spec in Hp. rewrite <- (Forall2_length' _ _ _ Hp).
+    symmetry. exact (mapping_scan_lengths c 0 ids sfx Hs).
+  - intros g mz p Hin Hpg. apply In_combine_map_inv in Hin as (m & -> & Hin).
+    destruct (scan_combine joint c 0 ids sfx ms g m Hs Hp Hin) as (q & x & k & -> & Hx & Hk & Hm).
+    destruct Hpg as [<-|[]]. cbn [Nat.add]. unfold in_range_b. rewrite Hx.
+    apply cut_of_suffix in Hk as (b & Hc). destruct (cut_of_basis x k b Hc) as (Hb & _). rewrite Hb.
+    destruct (Hr x k b (nth_error_In _ _ Hx) Hc) as (m' & Hm' & Hlt). assert (m = m') by congruence. subst m'.
+    apply andb_true_intro. split; [apply Z.leb_le, Nat2Z.is_nonneg|apply Z.ltb_lt, Nat2Z.inj_lt, Hlt].
+Qed.
+
+(* `bases` and the cut ids, both directions: the ids are exactly 0 .. n-1 (every position of `bases` belongs to a cut
+   that occurs), and when all placeholders of a cut carry the same basis handle, bases[k] is THAT handle *)
+Theorem bases_aligned_full d :
+  (forall x k, In x (all_instrs d) -> suffix_of x = Some (Some k) -> k < length (bases_by_partition d)) ->
+  (forall j, j < length (bases_by_partition d) -> exists x b, In x (all_instrs d) /\ cut_of x = Some (j, b)) /\
+  ((forall x x' k b b', In x (all_instrs d) -> In x' (all_instrs d) -> cut_of x = Some (k, b) -> cut_of x' = Some (k, b') -> b = b') ->
+   forall x k b, In x (all_instrs d) -> cut_of x = Some (k, b) -> nth_error (bases_by_partition d) k = Some b).
+Proof.
+  intros Hlt. split.
+  - intros j Hj.
+    assert (Hkeys : forall k', In k' (map fst (bases_dict d)) <-> exists y b, In y (all_instrs d) /\ cut_of y = Some (k', b)).
+    { intros k'. rewrite bases_dict_flat, fold_bases_keys. cbn [map In]. tauto. }
+    assert (Hnd : NoDup (map fst (bases_dict d))) by (rewrite bases_dict_flat; apply fold_bases_NoDup; constructor).
+    assert (Hlen : length (bases_by_partition d) = length (bases_dict d))
+      by (unfold bases_by_partition; now rewrite map_length, isort_length, map_length).
+    assert (Hseq : isort (map fst (bases_dict d)) = seq 0 (length (bases_dict d))).
+    { rewrite <- (map_length fst (bases_dict d)), <- (isort_length (map fst (bases_dict d))).
+      apply sorted_bounded_is_seq; [now apply isort_sorted|].
+      intros k' Hk'. rewrite isort_length, map_length, <- Hlen. split; [lia|].
+      apply isort_In, Hkeys in Hk' as (y & b & Hy & Hc). apply (Hlt y k' Hy). apply cut_of_suffix. eauto. }
+    apply Hkeys, isort_In. rewrite Hseq. apply in_seq. lia.
+  - intros Hsame x k b Hx Hc.
+    destruct (bases_aligned d Hlt x k Hx (proj2 (cut_of_basis x k b Hc))) as (b' & Hn & x' & Hx' & Hc').
+    rewrite Hn. f_equal. exact (Hsame x' x k b' b Hx' Hx Hc' Hc).
+Qed.
+
+(* ====================================================================== *)
 (* I. bridge to Model/Weights.v (property C04): same shapes, other names   *)
 (* ====================================================================== *)
 From CKT Require Model.Weights.
